@@ -16,16 +16,17 @@ How the two chunkers are modelled.  Both Go loops read one record and write it, 
 file once the bytes written to the current one reach the limit.  The model separates the two halves: the
 READING half is `parseOldPrimary` / `parseOldIndex` (byte-exact, including where the loops stop and what
 they refuse), the WRITING half is `chunk` of Sth/Model/Upgrade.lean (`chunkFiles` adds the two things the
-code does around it: the empty file it has already created when the last record filled its chunk, and the
-size prefix of a torn last record that stays in the last file).
+code does around it: the empty file it has already created when the last record filled its chunk, and -
+before the repair recorded as D31 in KNOWN_FINDINGS - the size prefix of a torn last record that stayed in
+the last file; `chunkFiles` keeps its `stray` parameter, which is now always []).
 
 Quirks that are modelled because the code has them:
   * chunkOldPrimary does not read the body of a record whose size prefix carries the deleted bit: it
     writes whatever its scratch buffer holds (zeros, or the bytes of earlier records).  `parseOldPrimary`
     carries the scratch buffer.
-  * chunkOldPrimary stops silently at a torn tail (the 4-byte size prefix of the torn record has already
-    gone to the writer and is flushed iff the current file already holds a record); chunkOldIndex refuses
-    a torn tail with an error.
+  * chunkOldPrimary stops silently at a torn tail and copies nothing of the torn record (repaired code; it
+    used to write the 4-byte size prefix before trying to read the data: D31); chunkOldIndex refuses a torn
+    tail with an error.
   * applyFreeList skips an entry only when `offset > size`; an entry with `offset == size` (or inside the
     last three bytes, or ≥ 2^63) makes ReadAt fail and the whole Open fails.
   * remapIndex rewrites only the record list each bucket currently points at (earlier generations keep
@@ -109,7 +110,7 @@ def markFreed (data : Bytes) : List Nat → Option Bytes
 
 /-- the reading half of chunkOldPrimary from `pos`: the records as they are WRITTEN (size prefix as read,
     then the body — for a deleted record the scratch buffer's bytes), and the bytes written for a torn
-    last record (its size prefix).  `scratch` is the Go scratch buffer. -/
+    last record (none since the repair D31; before it, its size prefix).  `scratch` is the Go scratch buffer. -/
 def parseOldPrimary (file : Bytes) : Nat → Nat → Bytes → List Bytes × Bytes
   | 0, _, _ => ([], [])
   | fuel + 1, pos, scratch =>
@@ -125,7 +126,7 @@ def parseOldPrimary (file : Bytes) : Nat → Nat → Bytes → List Bytes × Byt
         ((sb ++ scratch.take size) :: rs, stray)
       else
         match readAt file (pos + 4) size with
-        | none => ([], sb)
+        | none => ([], [])      -- torn last record: nothing of it is copied (repaired code, KNOWN_FINDINGS D31)
         | some body =>
           let (rs, stray) := parseOldPrimary file fuel (pos + 4 + size) (body ++ scratch.drop size)
           ((sb ++ body) :: rs, stray)
